@@ -1288,3 +1288,94 @@ func execC19First(t *testing.T, c C19First) (v Verdict) {
 }
 
 func TestC19First(t *testing.T) { checkProp(t, "C19", "first", genC19First, execC19First) }
+
+// ---- network transports: a reader that takes its time (real time) ----------------------------------------
+
+// C19SlowReader: over a real loopback WebSocket (or HTTP), K envelopes are written while the reader pauses PauseMs of
+// real time before its second Read - nothing is wrong with the connection, the application is merely busy. Every
+// envelope whose Write returned nil must still be read, in order.
+type C19SlowReader struct {
+	Transport string `json:"transport"`
+	K         int    `json:"k"`
+	PauseMs   int    `json:"pause_ms"`
+}
+
+func genC19SlowReader(t *rapid.T) C19SlowReader {
+	p := 7000
+	if thorough() {
+		p = rapid.SampledFrom([]int{7000, 12000, 21000}).Draw(t, "pause_ms")
+	}
+	return C19SlowReader{Transport: rapid.SampledFrom([]string{"websocket", "websocket", "http"}).Draw(t, "transport"), K: rapid.IntRange(2, 5).Draw(t, "k"), PauseMs: p}
+}
+
+func execC19SlowReader(t *testing.T, c C19SlowReader) (v Verdict) {
+	ctx, cancel := context.WithTimeout(context.Background(), time.Duration(c.PauseMs)*time.Millisecond+netBudget)
+	defer cancel()
+	var writeEnd, readEnd goat.RpcReadWriter
+	switch c.Transport {
+	case "websocket":
+		cl, sv, _, _, cleanup := wsPair(t)
+		defer cleanup()
+		writeEnd, readEnd = cl, sv
+	default:
+		connected := make(chan goat.RpcReadWriter, 1)
+		var once sync.Once
+		recv := goat.NewGoatOverHttp(func(id string, rw goat.RpcReadWriter) { once.Do(func() { connected <- rw }) }, func(src string) (string, error) { return "addr-of-" + src, nil })
+		defer recv.Cancel()
+		hs := httptest.NewServer(recv)
+		defer hs.Close()
+		send := goat.NewGoatOverHttp(func(string, goat.RpcReadWriter) {}, func(s string) (string, error) { return s, nil })
+		defer send.Cancel()
+		writeEnd = send.NewConnection(strings.TrimPrefix(hs.URL, "http://"))
+		readEnd = lazyRW{connected}
+	}
+	env := func(i int) *goat.Rpc {
+		return &goat.Rpc{Id: uint64(i + 1), Header: &goatorepo.RequestHeader{Method: "/x/y", Source: "peer", Destination: "d"}, Body: &goatorepo.Body{Data: []byte{byte(i)}}}
+	}
+	werrs := make(chan error, c.K)
+	go func() {
+		for i := 0; i < c.K; i++ {
+			werrs <- writeEnd.Write(ctx, env(i))
+		}
+	}()
+	var got []uint64
+	var rerr error
+	for i := 0; i < c.K; i++ {
+		if i == 1 {
+			time.Sleep(time.Duration(c.PauseMs) * time.Millisecond) // the application is busy
+		}
+		x, err := readEnd.Read(ctx)
+		if err != nil {
+			rerr = err
+			break
+		}
+		got = append(got, x.GetId())
+	}
+	written := 0
+	for i := 0; i < c.K; i++ {
+		select {
+		case err := <-werrs:
+			if err == nil {
+				written++
+			}
+		default:
+		}
+	}
+	if ctx.Err() != nil {
+		inconclusive(t, "%s: slow-reader exchange exceeded its budget", c.Transport)
+	}
+	for i, id := range got {
+		if id != uint64(i+1) {
+			v.failf("%s: envelope #%d read has id %d", c.Transport, i+1, id)
+		}
+	}
+	if rerr != nil {
+		v.failf("%s: after a pause of %d ms between two Reads on a healthy connection the next Read failed: %v (%d envelopes had been written without error, %d read)", c.Transport, c.PauseMs, rerr, written, len(got))
+	} else if len(got) != c.K {
+		v.failf("%s: %d of %d envelopes read", c.Transport, len(got), c.K)
+	}
+	v.Info = kit.CaseInfo{Labels: []string{"slow-reader." + c.Transport}, NonTrivial: true, Key: fmt.Sprintf("%+v", c), Sample: c}
+	return
+}
+
+func TestC19SlowReader(t *testing.T) { checkProp(t, "C19", "slow-reader", genC19SlowReader, execC19SlowReader) }
